@@ -204,6 +204,13 @@ class Env:
         return [v if (isinstance(v, tuple) and v and isinstance(v[0], str) and v[0].startswith("$")) else self.wrap(v)
                 for v in self.st.out]
 
+    @property
+    def iter_yields(self) -> list:
+        """what this loop iteration has yielded so far (everything after the loop-head marker)"""
+        out = list(self.st.out)
+        k = max((i for i, v in enumerate(out) if isinstance(v, tuple) and v and v[0] == "$yields"), default=-1)
+        return [self.wrap(v) for v in out[k + 1:]]
+
     def __setattr__(self, name: str, value: Any) -> None:
         if name == "st":
             object.__setattr__(self, "st", value)
